@@ -147,7 +147,7 @@ Qed.
 Lemma prot_frame st : forall P P' ok x,
   stmt_prot st P = (Some P', ok) -> pmem x P = true -> ~ In x (assigned st) -> pmem x P' = true.
 Proof.
-  induction st as [| s1 IH1 s2 IH2 | y a | cs y g args | d y | c s1 IH1 s2 IH2 | c body IH | a | y ik j | cs d y xi ik m args | a er | cs y ye g args | cs g args]; intros P P' ok x H Hx Hn; cbn in H, Hn.
+  induction st as [| s1 IH1 s2 IH2 | y a | cs y g args | d y | c s1 IH1 s2 IH2 | c body IH | a | y ik j | y z ik ik2 | cs d y xi ik m args | a er | cs y ye g args | cs g args]; intros P P' ok x H Hx Hn; cbn in H, Hn.
   - inversion H; subst; auto.
   - destruct (stmt_prot s1 P) as [[P1|] ok1] eqn:E1; [|discriminate].
     destruct (stmt_prot s2 P1) as [o2 ok2] eqn:E2. inversion H; subst.
@@ -181,6 +181,11 @@ Proof.
     destruct (cond_prot_mono _ _ _ _ _ x Ec X). auto.
   - discriminate.
   - inversion H; subst. apply pmem_cons. auto.
+  - inversion H; subst. assert (x <> y) by (intros ->; apply Hn; left; reflexivity).
+    assert (R : pmem x (premove y P) = true).
+    { apply pmem_in. unfold premove. apply filter_In. split; [now apply pmem_in|].
+      destruct (var_eqb y x) eqn:E; auto. apply var_eqb_eq in E. congruence. }
+    destruct (pmem z P); auto. apply pmem_cons; auto.
   - inversion H; subst. destruct y as [y|]; auto.
     assert (x <> y) by (intros ->; apply Hn; left; reflexivity).
     apply pmem_in. unfold premove. apply filter_In. split; [now apply pmem_in|].
@@ -222,7 +227,7 @@ Section Analysis.
     Pinv P e -> analyze ng ctr sp f fuel st e = Some r -> stmt_prot st P = (oP, true) ->
     safe (a_trig r) /\ forall e', a_env r = Some e' -> exists P', oP = Some P' /\ Pinv P' e'.
   Proof.
-    induction st as [| s1 IH1 s2 IH2 | y a | cs y g args | d y | c s1 IH1 s2 IH2 | c body IH | a | y ik j | cs d y xi ik m args | a er | cs y ye g args | cs g args]; intros e r P oP HP Han Hs; cbn in Han, Hs.
+    induction st as [| s1 IH1 s2 IH2 | y a | cs y g args | d y | c s1 IH1 s2 IH2 | c body IH | a | y ik j | y z ik ik2 | cs d y xi ik m args | a er | cs y ye g args | cs g args]; intros e r P oP HP Han Hs; cbn in Han, Hs.
     - inversion Han; inversion Hs; subst; cbn. split; [intros t []|]. intros e' He. inversion He; subst. eauto.
     - destruct (analyze ng ctr sp f fuel s1 e) as [r1|] eqn:E1; [|discriminate].
       destruct (stmt_prot s1 P) as [[P1|] ok1] eqn:F1.
@@ -288,6 +293,9 @@ Section Analysis.
     - inversion Han; inversion Hs; subst; cbn. split; [apply safe_cond_cons|]. discriminate.
     - inversion Han; inversion Hs; subst; cbn. split; [apply safe_store|]. intros e' He. inversion He; subst.
       eexists; split; eauto. apply Pinv_putk_never; auto. intros p [<-|[]]. reflexivity.
+    - inversion Han; inversion Hs; subst; cbn. split; [apply safe_store|]. intros e' He. inversion He; subst.
+      eexists; split; eauto.
+      destruct (pmem z P) eqn:Ez; [apply Pinv_putk_never; auto | apply Pinv_putk_remove; auto].
     - inversion Han; inversion Hs as [[Ho Hm]]; subst; cbn. split.
       + apply safe_app. split; [apply safe_deref; apply never_norm; auto|]. apply safe_app. split; [apply safe_args|].
         destruct y; [apply safe_store|intros t []].
@@ -376,9 +384,16 @@ Proof.
   destruct (ctr g && sp f0 g); [|contradiction]. revert t Ht. apply safe_dups. now apply safe_nth.
 Qed.
 
+Lemma safe_iaffil p kk : safe (iaffil p kk).
+Proof.
+  unfold iaffil. generalize 0. induction (isig p (fst kk)) as [|np sig IH]; intros m; cbn [ilink_methods]; [intros t []|].
+  apply safe_app. split; [|apply IH]. unfold ilink_method.
+  intros t [<-|Ht]; [cbn; discriminate|]. apply in_map_iff in Ht. destruct Ht as [i [<- _]]. cbn. discriminate.
+Qed.
+
 Lemma safe_affil p kj : safe (affil p kj).
 Proof.
-  unfold affil. generalize 0. induction (nth (snd kj) (p_impls p) []) as [|f row IH]; intros m; cbn; [intros t []|].
+  unfold affil. generalize 0. induction (firstn (length (isig p (fst kj))) (nth (snd kj) (p_impls p) [])) as [|f row IH]; intros m; cbn; [intros t []|].
   apply safe_app. split; [|apply IH].
   destruct (nth_error (p_funcs p) f); [|intros t []]. unfold affil_method.
   intros t [<-|Ht]; [cbn; discriminate|]. apply in_map_iff in Ht. destruct Ht as [i [<- _]]. cbn. discriminate.
@@ -401,13 +416,14 @@ Proof.
   inversion Han; subst. unfold all_triggers, all_strigs. cbn [r_decl r_funcs r_dups r_affil].
   pose proof (analyze_funcs_safe _ _ _ _ _ _ _ _ Ef Hg) as Sf.
   set (TS := drop_safe (rsafe_all (length (p_ginit prog)) afuel ctr sp2 0 (p_funcs prog)) sp2 0 tss) in *.
-  set (AF := map (fun fd => flat_map (affil prog) (convs_of (f_body fd))) (p_funcs prog)) in *.
+  set (AF := map (fun fd => flat_map (affil prog) (convs_of (f_body fd)) ++ flat_map (iaffil prog) (iconvs_of (f_body fd))) (p_funcs prog)) in *.
   assert (S : safe (decl_triggers 0 (p_ginit prog) ++ concat TS ++ concat (dups_all ctr sp2 tss 0 (p_funcs prog)) ++ concat AF)).
   { apply safe_app. split; [apply safe_decl|]. apply safe_app. split; [apply safe_concat; intros tg Htg; eapply safe_drop; eauto|].
     apply safe_app. split.
     - apply safe_concat. intros dg Hd. eapply safe_dups_all; eauto.
     - apply safe_concat. intros ag Ha. unfold AF in Ha. apply in_map_iff in Ha. destruct Ha as [fd [<- _]].
-      intros t Ht. apply in_flat_map in Ht. destruct Ht as [kj [_ Ht]]. exact (safe_affil prog kj t Ht). }
+      intros t Ht. apply in_app_or in Ht. destruct Ht as [Ht|Ht]; apply in_flat_map in Ht; destruct Ht as [kj [_ Ht]];
+        [exact (safe_affil prog kj t Ht) | exact (safe_iaffil prog kj t Ht)]. }
   set (ALLs := decl_triggers 0 (p_ginit prog) ++ concat TS ++ concat (dups_all ctr sp2 tss 0 (p_funcs prog)) ++ concat AF) in *.
   assert (NoSink : forall a, act (csys_of [] [] (map etrig ALLs)) a -> match a with ASnk _ | ADirect _ => False | _ => True end).
   { intros a [Ha|[k [Ha _]]]; unfold csys_of in Ha; cbn in Ha.
